@@ -1693,6 +1693,7 @@ static void *peg_unmarshal(JanetMarshalContext *ctx) {
                 break;
             case RULE_ARGUMENT:
                 /* [argument-index, tag] */
+                PEG_NEED(3);
                 if (rule[1] > INT32_MAX) goto bad;
                 i += 3;
                 break;
